@@ -140,7 +140,7 @@ fn exhaustive_input(env: &Env, k: u64) -> inputs::Picked {
     let mut r = Rng::new(prng::mix64(0xC14, k));
     let mut p = GenParams::draw(&mut r, 8);
     p.names = [1, 0, 2, 1, 3, 0][k as usize % 6];
-    p.producers = [1, 2, 0, 2, 1, 0][k as usize % 6];
+    p.producers = [1, 2, 0, 3, 1, 0][k as usize % 6];
     p.n_customs = (k % 3) as u32;
     p.multi_memory = k % 2 == 0;
     let g = gen::generate(&p);
